@@ -141,6 +141,7 @@ inductive Out
   | badEtag                 -- InvalidETag
   | noSuchItem              -- NoSuchItem
   | locked                  -- LockedError
+  | failed                  -- any other exception (never produced by the model)
   deriving DecidableEq, Repr, Inhabited
 
 def Out.isOk : Out → Bool
